@@ -16,15 +16,14 @@ META = {
 KINDS = ["int", "bool", "oid", "bits", "time", "len", "tag"]
 
 QUICK = dict(INT_FULL=1, INT_MAX=3, INT_LONG=10, OID_FULL=1, OID_MAX=3, OID_LONG=8, BITS_FULL=1, BITS_MAX=3, BOOL_FULL=1,
-             BOOL_MAX=2, LEN_FULL=2, LEN_MAX=4, TAG_FULL=2, TAG_MAX=4, TIMEMENU='"quick"',
+             BOOL_MAX=2, LEN_FULL=2, LEN_MAX=4, LEN_SMALL=6, TAG_FULL=2, TAG_MAX=4, TIMEMENU='"quick"',
              LEN_IDS="{4,48}")
 # thorough: several runs so that no single TLC output exceeds ~1.5 M records
 THOROUGH = [
-    (["int"], dict(INT_FULL=2, INT_MAX=5)),
-    (["oid"], dict(OID_FULL=2, OID_MAX=5)),
+    (["int"], dict(INT_FULL=2, INT_MAX=4, INT_LONG=12)),
+    (["oid"], dict(OID_FULL=2, OID_MAX=4, OID_LONG=9)),
     (["bits", "bool", "time"], dict(BITS_FULL=2, BITS_MAX=4, BOOL_FULL=2, BOOL_MAX=3, TIMEMENU='"full"')),
-    (["len", "tag"], dict(LEN_FULL=3, LEN_MAX=5, TAG_FULL=3, TAG_MAX=6)),
-    (["len"], dict(LEN_FULL=2, LEN_MAX=6, LEN_IDS="{4}")),
+    (["len", "tag"], dict(LEN_FULL=3, LEN_MAX=5, LEN_SMALL=9, TAG_FULL=2, TAG_MAX=6)),
 ]
 
 
@@ -89,7 +88,7 @@ def run(ctx):
     verdicted = {json.dumps(c["sig"], sort_keys=True) for c in cands}
 
     # U3: random longer encodings, real decisions judged by TLC
-    nrec = 400 if ctx.quick else 8000
+    nrec = 400 if ctx.quick else 4000
     out = ctx.path("obs.ndjson")
     ctx.run(binary, ["record", out, str(nrec)], timeout=1200)
     recs = read_ndjson(out)
